@@ -21,7 +21,7 @@ variable {F : Type} [Field F]
 def OnC (a d x y : F) : Prop := a * x ^ 2 + y ^ 2 = 1 + d * x ^ 2 * y ^ 2
 
 /-- core of the completeness proof: with ε = d·x1·x2·y1·y2 and ε² = 1, d would be a square -/
-theorem eps_sq_ne_one (s d x1 y1 x2 y2 : F) (h2 : (2 : F) ≠ 0) (hs : s ≠ 0) (hd : ∀ t : F, t ^ 2 ≠ d)
+theorem eps_sq_ne_one (s d x1 y1 x2 y2 : F) (h2 : (2 : F) ≠ 0) (hd : ∀ t : F, t ^ 2 ≠ d)
     (h1 : OnC (s ^ 2) d x1 y1) (h2' : OnC (s ^ 2) d x2 y2) : (d * x1 * x2 * y1 * y2) ^ 2 ≠ 1 := by
   intro hsq
   unfold OnC at h1 h2'
@@ -52,12 +52,12 @@ theorem eps_sq_ne_one (s d x1 y1 x2 y2 : F) (h2 : (2 : F) ≠ 0) (hs : s ≠ 0) 
     rw [div_pow, div_eq_iff (pow_ne_zero _ hne), ep]
     ring
 
-/-- COMPLETENESS: for a = s² ≠ 0 and d a non-square the denominators of the addition law never vanish on curve points -/
-theorem complete (a d s : F) (h2 : (2 : F) ≠ 0) (hs : s ≠ 0) (ha : a = s ^ 2) (hd : ∀ t : F, t ^ 2 ≠ d)
+/-- COMPLETENESS: for a = s² and d a non-square the denominators of the addition law never vanish on curve points -/
+theorem complete (a d s : F) (h2 : (2 : F) ≠ 0) (ha : a = s ^ 2) (hd : ∀ t : F, t ^ 2 ≠ d)
     (x1 y1 x2 y2 : F) (h1 : OnC a d x1 y1) (h2' : OnC a d x2 y2) :
     1 + d * x1 * x2 * y1 * y2 ≠ 0 ∧ 1 - d * x1 * x2 * y1 * y2 ≠ 0 := by
   subst ha
-  have key := eps_sq_ne_one s d x1 y1 x2 y2 h2 hs hd h1 h2'
+  have key := eps_sq_ne_one s d x1 y1 x2 y2 h2 hd h1 h2'
   constructor
   · intro h
     apply key
